@@ -20,7 +20,7 @@ ASSUMPTIONS = ["transparent wrappers (Box, Cell, RefCell, Wrapping, Cow, atomics
 def generate(tier, rng):
     derived = _d.generate(tier, rng)           # first: the schema world is keyed by the first bits of the rng (as in prepare)
     builtin = [l for l in _c01.generate(tier, random.Random(rng.getrandbits(32))) if l.startswith("RT ")]
-    return builtin + derived
+    return builtin + derived + ["IANA %d" % i for i in range(41)]      # CborLen for IanaTag (C07_iana)
 
 def nontrivial(line, impl):
     return _d.nontrivial(line, impl) if line.startswith("DLEN") else (len(impl.split(";")[0]) > 4)
